@@ -37,7 +37,8 @@ def units(tier):
     step = 10 if tier == "quick" else 12
     return ([("pairs", tier, i, min(n, i + step)) for i in range(0, n, step)] + [("laws", tier, i, min(n, i + 40)) for i in range(0, n, 40)]
             + [("typeddict", tier, 0, 0)] + [("protocol", tier, k, 0) for k in range(4)]
-            + [("source", tier, i, min(len(_src_terms(tier)), i + 4)) for i in range(0, len(_src_terms(tier)), 4)])
+            + [("source", tier, i, min(len(_src_terms(tier)), i + 4)) for i in range(0, len(_src_terms(tier)), 4)]
+            + [("generics", tier, 0, 0)])
 
 
 def _src_terms(tier):
@@ -414,9 +415,45 @@ def _protocol(res, tier, order_kind, only=None):
     res.sample({"protocol": "PR", "class": "KR2", "accepted": first.get(("PR", "KR2"))})
 
 
+_GMOD = None
+
+
+def _generics(res, tier, only=None):
+    """user-defined generic classes: type arguments must travel through the declared bases in the declared order"""
+    global _GMOD
+    from pyanalyze.analysis_lib import make_module
+    from pyanalyze.annotations import type_from_runtime
+    from pa.run import make_checker
+    from ref import generics as G
+    if _GMOD is None:
+        _GMOD = make_module(G.SRC)
+    ns = vars(_GMOD)
+    ck = make_checker()
+    ts = G.terms()
+    vals = {t: type_from_runtime(eval(G.render(t), ns)) for t in ts}
+    n = len(ts)
+    for i, a in enumerate(ts):
+        for j, b in enumerate(ts):
+            if only is not None and [i, j] != only:
+                continue
+            res.states += 1
+            res.validated += 1
+            acc = _accepts(vals[a], vals[b], ck)
+            exp = G.accepts(a, b)
+            res.transitions += 1
+            res.outcomes["generics:accepted=%s/expected=%s" % (acc, exp)] += 1
+            if acc != exp:
+                res.violation({"law": "generic-bases", "verdict": "accepts" if acc else "rejects", "A": a[0], "B": b[0]}, {"gen": [i, j], "order": 4 * 10 ** 9 + i * n + j},
+                              "%s %s %s, but following the declared bases and variance it %s" % (G.render(a), "accepts" if acc else "rejects", G.render(b), "should" if exp else "should not"))
+    res.sample({"A": "Mapping[int, str]", "B": "Flipped[int, str]", "declared": "class Flipped(Mapping[K, V], Generic[V, K])"})
+
+
 def run_unit(unit):
     kind, tier, lo, hi = unit
     res = UnitResult()
+    if kind == "generics":
+        _generics(res, tier)
+        return res
     if kind == "pairs":
         _pairs(res, tier, lo, hi)
     elif kind == "laws":
@@ -434,6 +471,9 @@ def replay(case):
     res = UnitResult()
     if "td" in case:
         _typeddict(res, "quick", only=case["td"])
+        return list(res.viol.values())
+    if "gen" in case:
+        _generics(res, "quick", only=case["gen"])
         return list(res.viol.values())
     if "src" in case:
         for tier in ("quick", "thorough"):
